@@ -164,6 +164,14 @@ pub fn check_link(case: &LinkCase) -> CaseResult {
         if v.is_file(&l) || v.is_dir(&l) {
             return Err(fail("link-exclusion|is_file-or-is_dir-true-for-link", format!("is_file {} is_dir {}", v.is_file(&l), v.is_dir(&l))));
         }
+        // the same with the link as the current directory (Memfs; the cwd of Stdfs is the process')
+        if !case.stdfs && points_to_dir && v.set_cwd(&l).is_ok() {
+            let (f, d, s) = (v.is_file(&l), v.is_dir(&l), v.is_symlink(&l));
+            let _ = v.set_cwd("/");
+            if f || d || !s {
+                return Err(fail("link-exclusion|is_file-or-is_dir-true-for-link", format!("with the link as cwd: is_file {} is_dir {} is_symlink {}", f, d, s)));
+            }
+        }
         let (sd, sf) = (v.is_symlink_dir(&l), v.is_symlink_file(&l));
         if dangling {
             // a missing target has no kind: only "not a directory link" is required
@@ -211,6 +219,12 @@ pub fn check_link(case: &LinkCase) -> CaseResult {
             let i4 = entry_info(&copy.follow(true));
             if i4 != i1 {
                 return Err(fail("entry-follow|swapped-twice", format!("clone of the followed entry, followed again: {:?}", i4)));
+            }
+            // follow(false) after follow(true) changes nothing, and neither does following again afterwards
+            let i5 = entry_info(&e.clone().follow(true).follow(false));
+            let i6 = entry_info(&e.clone().follow(true).follow(false).follow(true));
+            if i5 != i1 || i6 != i1 {
+                return Err(fail("entry-follow|swapped-twice", format!("follow(true).follow(false) = {:?}; then follow(true) = {:?}; want {:?}", i5, i6, i1)));
             }
             let i3 = entry_info(&e.clone().follow(false));
             if i3 != i0 {
